@@ -155,9 +155,23 @@ class TlsClient(LoopbackSoapClient):
         net.events.append({'ev': 'send', 'party': self.local, 'netloc': self._netloc,
                            'ctx': net.ctx_name(self._ssl_context), 'out': 'ok', 'at': len(net.log)})
 
-    def _post(self, path, created_message, request_manipulator, validate):
-        self._sending()
-        return super()._post(path, created_message, request_manipulator, validate)
+    def _prepare(self, path, created_message, request_manipulator, validate, absolute=None):
+        # (_prepare is the common entry of the synchronous and of the asynchronous send path)
+        if absolute is None:
+            self._sending()
+        else:
+            # the aiohttp based client given an absolute URL: host, port and scheme of the URL win; the TLS context of
+            # the session only applies to https
+            net = self.network
+            tls = absolute.scheme == 'https' and self._ssl_context is not None
+            server = net.servers.get(absolute.netloc)
+            out = 'refused' if server is None else 'ok' if net.answers(server, tls, absolute.netloc) else ('ssl' if tls else 'reset')
+            ctx = net.ctx_name(self._ssl_context) if tls else 'none'
+            net.events.append({'ev': 'connect', 'party': self.local, 'netloc': absolute.netloc, 'ctx': ctx, 'out': out})
+            if out == 'ok':
+                net.events.append({'ev': 'send', 'party': self.local, 'netloc': absolute.netloc, 'ctx': ctx, 'out': 'ok',
+                                   'at': len(net.log)})
+        return super()._prepare(path, created_message, request_manipulator, validate, absolute=absolute)
 
     def get_from_url(self, url, msg=''):
         self._sending()
